@@ -184,6 +184,10 @@ def build(d: Path, scn, out_name="out.nc", record_output=True, record_ibm=False,
                          numrec=o["numrec"], layout=o["layout"], reverse=rev, reference=ref,
                          ivars=ivars, dtype=o["dtype"])
     conf["output"]["instance_variables"]["tag"] = e2e.outvar("i4")
+    if o.get("pack_xy"):
+        # positions stored packed (the way examples/killer/dense.yaml stores X): precision = scale_factor / 2
+        for v in ("X", "Y"):
+            conf["output"]["instance_variables"][v] = e2e.outvar("i4", scale_factor=float(o["pack_xy"]))
     if o.get("pack_age"):
         # a packed output variable (integer on file, scale_factor / add_offset attributes); age counts whole steps,
         # so the packing is lossless
